@@ -1116,7 +1116,15 @@ pub(crate) async fn beaver_aand(
         let (alpha, beta) = &alpha_beta_shares[j];
 
         de_shares.push((a ^ alpha, b ^ beta));
+        #[cfg(not(polytune_verif))]
         d_e_dmac_emac.push((a.0 ^ alpha.0, b.0 ^ beta.0, Mac(0), Mac(0)));
+        #[cfg(polytune_verif)]
+        d_e_dmac_emac.push((
+            crate::verif::tap_bit("beaver_d", i, j, a.0 ^ alpha.0),
+            crate::verif::tap_bit("beaver_e", i, j, b.0 ^ beta.0),
+            Mac(0),
+            Mac(0),
+        ));
     }
     let scatter_data: Vec<Vec<(bool, bool, Mac, Mac)>> = (0..n)
         .map(|k| {
